@@ -8,7 +8,7 @@ namespace Petl.Snapshot
 open Petl.Gen
 
 def expectedC05 : List (String × String) := [
-  ("transform.sorts.MergeSortView", "20471d773d3bf94c"),
+  ("transform.sorts.MergeSortView", "737d0646d5facf91"),
   ("transform.sorts.SortView", "39c82fa00f3f0fc2"),
   ("transform.sorts._Keyed", "584fe9dce5893b72"),
   ("transform.sorts._heapqmergesorted", "23fa6d6f863b7b86"),
@@ -16,7 +16,7 @@ def expectedC05 : List (String × String) := [
   ("transform.sorts._mergesorted", "f111489c26abfbd5"),
   ("transform.sorts._shortlistmergesorted", "a46bc364e42ebcf2"),
   ("transform.sorts.issorted", "76ed0b881076d03d"),
-  ("transform.sorts.itermergesort", "f56decfee0499b33")
+  ("transform.sorts.itermergesort", "24123b19efcef020")
 ]
 
 /-- every function or class the model of C05 mirrors still has the body it was validated against -/
